@@ -22,10 +22,18 @@ from gsv.colsym import SymArray
 POINTERS = ("p_id_",)
 
 
+def _after_last_entry():
+    """the last date at which any parameter file changes (the law most users simulate), if later than the fixed list"""
+    from gsv import dateprobe
+    last = max(dateprobe.yaml_seed_dates())
+    return [last] if last > datetime.date(2025, 1, 1) else []
+
+
 def date_classes(tier):
     if tier == "quick":
         return [datetime.date(2015, 1, 1), datetime.date(2017, 3, 1), datetime.date(2019, 7, 1), datetime.date(2021, 1, 1),
-                datetime.date(2022, 10, 1), datetime.date(2023, 7, 1), datetime.date(2024, 1, 1), datetime.date(2025, 1, 1)], None
+                datetime.date(2022, 10, 1), datetime.date(2023, 7, 1), datetime.date(2024, 1, 1), datetime.date(2025, 1, 1),
+                *_after_last_entry()], None
     from gsv import dateprobe
     regs, st = dateprobe.explore(datetime.date(2015, 1, 1), max(dateprobe.yaml_seed_dates()), check_endpoints=False)
     seen, out = set(), []
@@ -136,18 +144,28 @@ def template_cones(ck, dag, date, n, fname, kinds):
     """returns True if a root-level population reproduces the error on the real API (violation reported)"""
     import warnings
     for na, nc in TEMPLATES:
+        always = False
         try:
             cone = rulebank.TemplateCone(dag, na, nc, date.year)
             v, ctxn = cone.value(n)
         except (R.Unsupported, ValueError, KeyError) as e:
-            ck.extra.setdefault("template_cone_not_encoded", {})[f"{fname}/{na}+{nc}"] = str(e)[:80]
-            continue
-        guards = [g for g, kk, w in (ctxn.errors if ctxn else [])]
-        if not guards:
-            continue
-        r, m = rulebank.ladder(ck, cone.valid() + cone.ancestors_ok(n), z3.Or(guards), cone.syms, (20, 60))
-        if r != "sat":
-            continue
+            if isinstance(e, R.Unsupported) and "raises on every path" in str(e):
+                always = True      # the node cannot be computed for ANY population of this template: replay one
+            else:
+                ck.extra.setdefault("template_cone_not_encoded", {})[f"{fname}/{na}+{nc}"] = str(e)[:80]
+                continue
+        if always:
+            r, m = ck.solve(cone.valid(), 60)
+            if r != "sat":
+                ck.extra.setdefault("template_cone_not_encoded", {})[f"{fname}/{na}+{nc}"] = f"raises on every path; template population: {r}"
+                continue
+        else:
+            guards = [g for g, kk, w in (ctxn.errors if ctxn else [])]
+            if not guards:
+                continue
+            r, m = rulebank.ladder(ck, cone.valid() + cone.ancestors_ok(n), z3.Or(guards), cone.syms, (20, 60))
+            if r != "sat":
+                continue
         df = cone.dataframe(m)
         from gettsim import compute_taxes_and_transfers
         P, F = gt.env(date)
